@@ -24,6 +24,16 @@ PDummy = P.make_peer(DummyRegressor)
 PTree = P.make_peer(DecisionTreeRegressor)
 
 
+class PickyLinReg(PLinReg):
+    """A base regressor that validates its input: it refuses a resample whose
+    targets are all equal (as estimators with input validation do)."""
+
+    def fit(self, X, y, sample_weight=None):
+        if len(y) > 1 and numpy.all(numpy.asarray(y) == numpy.asarray(y)[0]):
+            raise ValueError("PickyLinReg: constant target")
+        return PLinReg.fit(self, X, y, sample_weight)
+
+
 def _alpha(ch, n):
     """alpha such that alpha*n is not within 0.05 of a half-integer and
     round(alpha*n) >= 1."""
@@ -75,8 +85,8 @@ def run(c, index, tier):
         w = numpy.round(rs.rand(n) + 0.5, 4) + numpy.arange(n) * 1e-4  # distinct weights
     alpha = _alpha(ch, n)
     n_est = ch.integer("w", 1, 8, "n_estimators")
-    local_name = ch.choice("w", ["linreg", "tag", "dummy", "tree"], "local")
-    local = {"linreg": PLinReg, "tag": P.TagRegressor, "dummy": PDummy, "tree": lambda: PTree(max_depth=2, random_state=0)}[local_name]()
+    local_name = ch.choice("w", ["linreg", "tag", "dummy", "tree", "picky"], "local")
+    local = {"linreg": PLinReg, "tag": P.TagRegressor, "dummy": PDummy, "tree": lambda: PTree(max_depth=2, random_state=0), "picky": PickyLinReg}[local_name]()
     n_jobs = ch.choice("w", [None, 2, 3, None], "n_jobs")
     mode = "adversarial" if ch.draw("r", 4, "entropy-mode") != 3 else "pinned"
     mode = getattr(c, "force_entropy_mode", None) or mode  # fidelity self-test only
@@ -117,6 +127,9 @@ def run(c, index, tier):
     else:
         ok, r = U.sut(c, "fit", model.fit, X, y, sample_weight=w)
     c.nontrivial = bool(c.seam_calls)
+    if not ok and local_name == "picky" and "PickyLinReg" in str(r):
+        c.probe("base_estimator_rejected_a_resample")  # propagating the base estimator's refusal is legitimate
+        return
     if not ok:
         _viol(
             c,
@@ -227,3 +240,16 @@ def run(c, index, tier):
     elif numpy.any(p < ps[:, 0] - 1e-9 * (1 + numpy.abs(p))) or numpy.any(p > ps[:, -1] + 1e-9 * (1 + numpy.abs(p))):
         _viol(c, seen, "aggregation", ("min-mean-max",), "predict is outside [min, max] of the individual predictions")
     c.log.ev("result", "pred", C.ahash(pa), C.ahash(p), C.ahash(ps))
+    # the caller reuses one array object for the next batch
+    if mq >= 2:
+        buf = Xq.copy()
+        U.sut(c, "predict(buffer)", model.predict, buf)
+        U.sut(c, "predict_sorted(buffer)", model.predict_sorted, buf)
+        buf[...] = Xq[::-1]
+        ok4, p2 = U.sut(c, "predict(buffer refilled)", model.predict, buf)
+        ok5, pa2 = U.sut(c, "predict_all(buffer refilled)", model.predict_all, buf)
+        c.probe("buffer_reused")
+        if ok4 and ok5:
+            want = numpy.stack([numpy.asarray(est.predict(Xq[::-1]), dtype=numpy.float64).ravel() for est in ests], axis=1)
+            if not U.arrays_equal(numpy.asarray(pa2), want, 1e-12, 1e-12) or not numpy.allclose(numpy.asarray(p2), want.mean(axis=1), rtol=1e-12, atol=1e-12):
+                _viol(c, seen, "aggregation", ("buffer-reuse",), "predict / predict_all on an array object that was predicted before and refilled in place do not return the predictions of its current rows")
